@@ -1,3 +1,179 @@
+/-
+  C10 — Saturation at the ends of the time_point range (table level, the path of MakeTime that
+  takes no 400-year shift).  A civil second beyond the `civil_max` of the last entry's type
+  converts to max(), one below the `civil_min` of the default type to min(); and the civil seconds
+  that lookup(max()) / lookup(min()) report convert back to exactly max() / min().
+
+  Hypotheses beyond `TableWF`/`CivilCols`: the table's instants lie inside int64 where that
+  matters (`TableWF` speaks about arbitrary integers; the C++ cannot hold others) — see
+  `saturate_max_needs_time_bound` for why the bound cannot be dropped.
+-/
 import Cctz.Model.Tz
+import Cctz.Spec.TableSem
+import Cctz.Proofs.TlSaturate
+import Cctz.Proofs.TlFixed
+
 namespace Cctz.C10
+open Cctz Cctz.Tz Cctz.Spec
+
+/-- every offset is below a day in size (Load rejects the others) -/
+def OffsetsSmall (z : Zone) : Prop :=
+  ∀ k, k < z.types.size → -86400 < (typ z k).utcOffset ∧ (typ z k).utcOffset < 86400
+
+/-- a civil second after the last entry's `prev_civil_sec` and beyond the `civil_max` of its type
+converts to max(), for every hint -/
+def saturate_max_statement : Prop :=
+  ∀ (z : Zone) (h : Nat) (cs : Fields), TableWF z → CivilCols z → CivilSorted z → Valid cs →
+    NoShift z cs → timeOf z (z.transitions.size - 1) ≤ i64max →
+    Civil.lt (trn z (z.transitions.size - 1)).prevCivilSec cs = true →
+    Civil.lt (typ z (trn z (z.transitions.size - 1)).typeIndex).civilMax cs = true →
+    (makeTime z h cs).val.1 = ⟨.unique, i64max, i64max, i64max⟩
+
+/-- with offsets below a day and the last entry two days or more before max(), being beyond
+`civil_max` alone is enough -/
+def saturate_max_small_statement : Prop :=
+  ∀ (z : Zone) (h : Nat) (cs : Fields), TableWF z → CivilCols z → CivilSorted z → OffsetsSmall z →
+    Valid cs → NoShift z cs → timeOf z (z.transitions.size - 1) ≤ i64max - 172800 →
+    Civil.lt (typ z (trn z (z.transitions.size - 1)).typeIndex).civilMax cs = true →
+    (makeTime z h cs).val.1 = ⟨.unique, i64max, i64max, i64max⟩
+
+/-- a civil second before the first entry's civil second, at or before its `prev_civil_sec`, and
+below the `civil_min` of the default type converts to min(), for every hint -/
+def saturate_min_statement : Prop :=
+  ∀ (z : Zone) (h : Nat) (cs : Fields),
+    Civil.lt cs (trn z 0).civilSec = true →
+    Civil.le cs (trn z 0).prevCivilSec = true →
+    Civil.lt cs (typ z z.defaultType).civilMin = true →
+    (makeTime z h cs).val.1 = ⟨.unique, i64min, i64min, i64min⟩
+
+/-- with offsets below a day and the first entry two days or more after min(), being below the
+default type's `civil_min` alone is enough -/
+def saturate_min_small_statement : Prop :=
+  ∀ (z : Zone) (h : Nat) (cs : Fields), TableWF z → CivilCols z → OffsetsSmall z → Valid cs →
+    i64min + 172800 ≤ timeOf z 0 →
+    Civil.lt cs (typ z z.defaultType).civilMin = true →
+    (makeTime z h cs).val.1 = ⟨.unique, i64min, i64min, i64min⟩
+
+/-- the civil second lookup(max()) reports converts back to exactly max() (table not extended) -/
+def max_roundtrip_statement : Prop :=
+  ∀ (z : Zone) (h h' : Nat), TableWF z → CivilCols z → CivilSorted z → OffsetsSmall z →
+    z.extended = false → timeOf z (z.transitions.size - 1) ≤ i64max - 172800 →
+    (makeTime z h' (breakTime z h i64max).val.1.cs).val.1 = ⟨.unique, i64max, i64max, i64max⟩
+
+/-- the civil second lookup(min()) reports converts back to exactly min() -/
+def min_roundtrip_statement : Prop :=
+  ∀ (z : Zone) (h h' : Nat), TableWF z → CivilCols z → OffsetsSmall z →
+    i64min + 172800 ≤ timeOf z 0 →
+    (makeTime z h' (breakTime z h i64min).val.1.cs).val.1 = ⟨.unique, i64min, i64min, i64min⟩
+
+/-! ## proofs -/
+
+theorem saturate_max : saturate_max_statement := by
+  intro z h cs wf cc cso v hns hlast h3 h4
+  rw [Tl.makeTime_max z h cs wf cc cso v hns hlast h3 h4]; rfl
+
+theorem saturate_max_small : saturate_max_small_statement := by
+  intro z h cs wf cc cso os v hns hlast h4
+  rw [Tl.makeTime_max_small z h cs wf cc cso os v hns hlast h4]; rfl
+
+theorem saturate_min : saturate_min_statement := by
+  intro z h cs h1 h3 h4
+  rw [Tl.makeTime_min z h cs h1 h3 h4]; rfl
+
+theorem saturate_min_small : saturate_min_small_statement := by
+  intro z h cs wf cc os v hfirst h4
+  rw [Tl.makeTime_min_small z h cs wf cc os v hfirst h4]; rfl
+
+theorem max_roundtrip : max_roundtrip_statement := by
+  intro z h h' wf cc cso os hext hlast
+  rw [Tl.max_roundtrip z h h' wf cc cso os hext hlast]; rfl
+
+theorem min_roundtrip : min_roundtrip_statement := by
+  intro z h h' wf cc os hfirst
+  rw [Tl.min_roundtrip z h h' wf cc os hfirst]; rfl
+
+/-! ## the hypotheses are satisfiable: the built-in UTC+1 table -/
+
+example : ∃ (z : Zone) (cs cs' : Fields), TableWF z ∧ CivilCols z ∧ CivilSorted z ∧ OffsetsSmall z ∧
+    z.extended = false ∧ Valid cs ∧ NoShift z cs ∧ Valid cs' ∧
+    timeOf z (z.transitions.size - 1) ≤ i64max - 172800 ∧ i64min + 172800 ≤ timeOf z 0 ∧
+    Civil.lt (trn z (z.transitions.size - 1)).prevCivilSec cs = true ∧
+    Civil.lt (typ z (trn z (z.transitions.size - 1)).typeIndex).civilMax cs = true ∧
+    Civil.lt cs' (trn z 0).civilSec = true ∧ Civil.le cs' (trn z 0).prevCivilSec = true ∧
+    Civil.lt cs' (typ z z.defaultType).civilMin = true := by
+  refine ⟨Tl.fixedZone 3600, ⟨300000000000, 1, 1, 0, 0, 0⟩, ⟨-300000000000, 1, 1, 0, 0, 0⟩,
+    Tl.fixed_wf _, Tl.fixed_cols _, Tl.fixed_civilSorted _, ?_, rfl, by decide, Or.inl rfl, by decide,
+    by decide +kernel, by decide +kernel, by decide +kernel, by decide +kernel, by decide +kernel,
+    by decide +kernel, by decide +kernel⟩
+  intro k hk
+  have : k = 0 := by
+    have : (Tl.fixedZone 3600).types.size = 1 := rfl
+    omega
+  subst this
+  decide
+
+/-! ## why `saturate_max` bounds the last instant
+
+`TableWF` allows instants outside int64.  With the bound dropped the statement is false: a single
+entry at max() + 10000 that moves the offset from 0 to +3600 leaves a gap; a civil second inside
+the gap is after `prev_civil_sec` and beyond `civil_max`, and MakeTime answers SKIPPED.  (No C++
+object can hold such a table; the fault is in the unbounded statement, not the code.) -/
+
+def saturate_max_unbounded_statement : Prop :=
+  ∀ (z : Zone) (h : Nat) (cs : Fields), TableWF z → CivilCols z → CivilSorted z → Valid cs →
+    NoShift z cs →
+    Civil.lt (trn z (z.transitions.size - 1)).prevCivilSec cs = true →
+    Civil.lt (typ z (trn z (z.transitions.size - 1)).typeIndex).civilMax cs = true →
+    (makeTime z h cs).val.1 = ⟨.unique, i64max, i64max, i64max⟩
+
+def zBeyond : Zone :=
+  { transitions := #[{ unixTime := 9223372036854785807, typeIndex := 1,
+                       civilSec := ⟨292277026596, 12, 4, 19, 16, 47⟩,
+                       prevCivilSec := ⟨292277026596, 12, 4, 18, 16, 46⟩ }],
+    types := #[{ utcOffset := 0, isDst := false, abbrIndex := 0,
+                 civilMax := ⟨292277026596, 12, 4, 15, 30, 7⟩,
+                 civilMin := ⟨-292277022657, 1, 27, 8, 29, 52⟩ },
+               { utcOffset := 3600, isDst := false, abbrIndex := 0,
+                 civilMax := ⟨292277026596, 12, 4, 16, 30, 7⟩,
+                 civilMin := ⟨-292277022657, 1, 27, 9, 29, 52⟩ }],
+    defaultType := 0, abbreviations := [0] }
+
+theorem saturate_max_needs_time_bound : ¬ saturate_max_unbounded_statement := by
+  intro H
+  have wf : TableWF zBeyond := by
+    refine ⟨by decide, ?_, ?_, by decide⟩
+    · intro i j hij hj
+      have : zBeyond.transitions.size = 1 := rfl
+      omega
+    · intro i hi
+      have : zBeyond.transitions.size = 1 := rfl
+      have : i = 0 := by omega
+      subst this; decide
+  have cc : CivilCols zBeyond := by
+    refine ⟨?_, ?_, ?_, ?_⟩
+    · intro i hi
+      have : zBeyond.transitions.size = 1 := rfl
+      have : i = 0 := by omega
+      subst this; decide +kernel
+    · intro i hi
+      have : zBeyond.transitions.size = 1 := rfl
+      have : i = 0 := by omega
+      subst this; decide +kernel
+    · intro k hk
+      have : zBeyond.types.size = 2 := rfl
+      have : k = 0 ∨ k = 1 := by omega
+      rcases this with h | h <;> subst h <;> decide +kernel
+    · intro k hk
+      have : zBeyond.types.size = 2 := rfl
+      have : k = 0 ∨ k = 1 := by omega
+      rcases this with h | h <;> subst h <;> decide +kernel
+  have cso : CivilSorted zBeyond := by
+    intro i j hij hj
+    have : zBeyond.transitions.size = 1 := rfl
+    omega
+  have := H zBeyond 0 ⟨292277026596, 12, 4, 18, 46, 47⟩ wf cc cso (by decide) (Or.inl rfl)
+    (by decide +kernel) (by decide +kernel)
+  revert this
+  decide +kernel
+
 end Cctz.C10
